@@ -28,7 +28,7 @@ def run_one(m, tier="quick"):
             lines = [l for l in r.stdout.splitlines() if l.startswith(("  violated", "VIOLATION", "ANALYSIS", "OK "))]
             res.append("%s exit=%d (%.0fs) %s" % (prop, r.returncode, time.time() - t, " | ".join(l[:200] for l in lines[:3])))
             if r.returncode == 2:
-                res.append(r.stdout[-600:])
+                res.append(r.stdout[-300:].replace("\n", " "))
         return ok, "; ".join(res)
     finally:
         shutil.rmtree(tmp, ignore_errors=True)
